@@ -302,10 +302,10 @@ func setStr(m map[string]bool) string {
 	return strings.Join(xs, "+")
 }
 
-func genRel(g *G, kind string, k int64, head int64) string {
+func genRel(g *G, kind string, k int64, head int64, base int64) string {
 	conf := int64(1 + g.Intn(2))
 	nh := 1 + g.Intn(2)
-	cfgStart := int64(g.Intn(20))
+	cfgStart := base + int64(g.Intn(int(2*k)+2))
 	flags := "-"
 	switch g.Intn(10) {
 	case 0:
@@ -315,7 +315,7 @@ func genRel(g *G, kind string, k int64, head int64) string {
 	}
 	stored0 := "none"
 	if g.Intn(3) == 0 {
-		stored0 = itoa64(int64(g.Intn(25)))
+		stored0 = itoa64(base + int64(g.Intn(int(3*k)+2)))
 	}
 	boot := itoa64(head + int64(g.Intn(7)))
 	nl := 1 + g.Intn(3)
@@ -396,7 +396,8 @@ func genC19(g *G) {
 	for i := 0; i < g.Count(500, 12000); i++ {
 		kind := []string{"evm", "sub", "evm", "btc"}[g.Intn(4)]
 		k := int64(1 + g.Intn(6))
-		head := int64(g.Intn(20))
-		g.Emit("tworel", kind, itoa64(k), genRel(g, kind, k, head), genRel(g, kind, k, head+int64(g.Intn(10))))
+		base := int64(g.Intn(20))
+		head := base + int64(g.Intn(20))
+		g.Emit("tworel", kind, itoa64(k), genRel(g, kind, k, head, base), genRel(g, kind, k, head+int64(g.Intn(10)), base))
 	}
 }
